@@ -158,6 +158,16 @@ theorem accept_dagTx_of_fact (hf : Facts.C17.dagRejectsPrivateJwk = true) : dagT
   obtain ⟨s, v, hs, hv, hidx, halg, hal, hasym, hov, hver, hsrc, hpriv⟩ := accept_dagTx_partial _ E otherOK j vs h
   exact ⟨s, v, hs, hv, hidx, halg, hal, hasym, hov, hver, hsrc, hpriv hf⟩
 
+/-- the parser refuses a `jwk` header holding an ECDSA / RSA / OKP private key (type switch in parseSignatureParams) -/
+theorem fact_dag_rejects_private_jwk :
+    Facts.C17.dagRejectsPrivateJwk = true ∧
+    (∀ t ∈ ["jwk.ECDSAPrivateKey", "jwk.RSAPrivateKey", "jwk.OKPPrivateKey"], t ∈ Facts.C17.parseSignatureParamsRejectedKeyTypes) := by decide
+
+/-- DAG transactions, full statement: one signature, allow-listed asymmetric algorithm, verified over its signing
+    input with the embedded key (jwk form, no kid) or the key the resolver returns for the kid (kid form, no jwk), and
+    an embedded private key is refused -/
+theorem accept_dagTx : dagTxStmt := accept_dagTx_of_fact fact_dag_rejects_private_jwk.1
+
 /-- a parser that does not look at the key kind accepts a transaction carrying a PRIVATE jwk (witness replayed on the
     real ParseTransaction + signature verifier: variants embed-jwk-priv-*) -/
 theorem dagTx_without_private_check_accepts_private_jwk :
